@@ -281,7 +281,7 @@ theorem pidInit_ok {g : Adj} (hs : Sym g) {paths : List Path} (hp : ∀ p ∈ pa
   unfold pidInit at h
   refine foldlM_pidInitStep_ok hs _ _ _ ?_ h (fun _ hm => by simp at hm) (fun _ hm => by simp at hm)
   intro c hc
-  exact hp c ((List.mergeSort_perm _ _).mem_iff.1 hc)
+  exact hp c ((isort_perm _ _).mem_iff.1 hc)
 
 /-! ## the triple loop -/
 
